@@ -748,6 +748,18 @@ def apply_op(resp, model, op, where):
         spec = op[1]
         resp.set_cookie(spec['name'], spec['value'], **cookie_kwargs(spec))
         model.jar.set(spec)
+    elif kind == 'cookie_bad':
+        # documented: ValueError when the value is not a valid cookie value (not ASCII), KeyError for such a name; the
+        # refused call must leave the cookies set so far alone (the model is not touched)
+        try:
+            if op[2] == 'value':
+                resp.set_cookie(op[1], 'caf\u00e9 \u2603', path='/refused')
+            else:
+                resp.set_cookie(op[1] + '\u00e9', 'v')
+        except (ValueError, KeyError):
+            pass
+        else:
+            raise Violation('invalid_cookie_accepted', '%s: set_cookie with a non-ASCII %s did not raise' % (where, op[2]))
     elif kind == 'unset':
         spec = op[1]
         resp.unset_cookie(spec['name'], **unset_kwargs(spec))
@@ -798,7 +810,7 @@ def history_info(steps):
             touch(PROPS[op[1]], None, 'property')
         elif k == 'link':
             touch('link', None, 'append_link')
-        elif k in ('cookie', 'unset'):
+        elif k in ('cookie', 'unset', 'cookie_bad'):
             has_cookie = True
         elif k == 'raw_cookie':
             has_raw = True
@@ -960,6 +972,7 @@ _op = st.one_of(
     _cookie_spec(_hist_cookie_name, _hist_cookie_value).map(lambda s: ['cookie', s]),
     _cookie_spec(_hist_cookie_name, _hist_cookie_value).map(lambda s: ['cookie', s]),
     _unset_spec(_hist_cookie_name).map(lambda s: ['unset', s]),
+    st.builds(lambda n, w: ['cookie_bad', n, w], _hist_cookie_name, st.sampled_from(['value', 'value', 'name'])),
     st.builds(lambda n, v: ['raw_cookie', n, v], _sc_name, _raw_cookie),
     st.builds(lambda n, v: ['raw_cookie', n, v], _sc_name, _raw_cookie),
     st.builds(lambda n: ['forbid_get', n], _sc_name),
